@@ -77,7 +77,8 @@ SysSymlink(f, target, s) ==
     IF w.err # "ok" \/ Exists(f, w) \/ target = <<"">> THEN Res("err", {}, f)
     ELSE Res("ok", {w.loc}, f @@ (w.loc :> [k |-> "link", t |-> target, ino |-> 0]))
 
-Base == (<<>> :> DirNode) @@ (Top :> DirNode)
+(* next to the destination: a sibling whose name shares a prefix with it *)
+Base == (<<>> :> DirNode) @@ (Top :> DirNode) @@ (Append(Top, "Dx") :> DirNode)
 InitFs(d) == CASE d = "dir"  -> Base @@ (DestLoc :> DirNode)
                [] d = "file" -> Base @@ (DestLoc :> FileNode)
                [] d = "none" -> Base
